@@ -105,6 +105,17 @@ async def run(ctx):
                 check_string(ctx, G.join_tokens(toks, rng if idx % 2 else None), "level-orderings")
                 ctx.count("level_ordering_chains")
     ctx.sample({"chain": "".join(chain(("or", "then", "xor", "and"), 6, {"and": "∧", "or": "o", "xor": "X"}, rng))}, cls="level-orderings")
+    # ---- small scope, complete: EVERY sequence of up to 5 (thorough: 6) operators out of {juxtaposition, U, X, O} between atoms
+    spell_cycle = [{"and": a, "or": o, "xor": x} for a, o, x in zip(G.AND_SP, G.OR_SP, G.XOR_SP)]
+    idx = 0
+    for n_ops in range(1, (5 if ctx.quick else 6) + 1):
+        for pattern in product(["then", "and", "xor", "or"], repeat=n_ops):
+            idx += 1
+            if not ctx.mine(idx):
+                continue
+            toks = chain(pattern, n_ops + 1, spell_cycle[idx % 3], rng)
+            check_string(ctx, "".join(toks), "operator-patterns")
+            ctx.count("operator_patterns")
     # ---- long alternating chains and deep nesting (separately budgeted: Earley is super-linear) -----------------------------
     longs = [(12, 2), (20, 2), (30, 1)] if ctx.quick else [(12, 6), (20, 6), (30, 4), (40, 3), (50, 1)]
     idx = 0
